@@ -115,10 +115,17 @@ def generate() -> str:
         if init is not None and len(init.args.args) >= 2:
             lst = init.args.args[1].arg
             fields = []
+            local_vals = {}
             for s in init.body:
+                if isinstance(s, ast.Assign) and len(s.targets) == 1 and isinstance(s.targets[0], ast.Name) and s.targets[0].id != lst:
+                    local_vals[s.targets[0].id] = s.value          # a local that holds a field's value until it is stored
+                    continue
                 if isinstance(s, ast.Assign) and len(s.targets) == 1 and src(s.targets[0]).startswith("self."):
                     name = re.sub(r"^self\._?\w*?__", "", src(s.targets[0]))
                     v = s.value
+                    if isinstance(v, ast.Name) and v.id in local_vals:
+                        v = local_vals[v.id]
+                        s = ast.Assign(targets=s.targets, value=v)
                     if isinstance(v, ast.Call) and src(v.func) == "float" and len(v.args) == 1:
                         v = v.args[0]
                     if isinstance(v, ast.Call) and v.args and src(v.args[0]) == lst:
